@@ -52,6 +52,17 @@ var scenarios = []struct {
 	{"late-child-at-the-worker-call-out", Case{Seed: 109, Ops: []Op{
 		{K: "ldelete", A: 0}, {K: "worker", B: 2}, {K: "rdelete", A: 1, B: 1}, {K: "deliver", A: 1}, {K: "worker", B: 2},
 	}}},
+	{"shutdown-during-the-worker-run-leaves-children-to-the-orphan-scan", Case{Seed: 111, Ops: []Op{
+		{K: "child", A: 0, C: 1}, {K: "child", A: 0}, {K: "rdelete", A: 2, B: 0}, {K: "deliver", A: 2},
+		{K: "worker", B: 5}, {K: "put", A: 2}, {K: "worker"},
+	}}},
+	{"crash-between-storage-deletion-and-status", Case{Seed: 112, Ops: []Op{
+		{K: "ldelete", A: 0}, {K: "edit", A: 0, B: 1}, {K: "worker", B: 6}, {K: "deliver", A: 1}, {K: "fetch", A: 0}, {K: "worker"},
+	}}},
+	{"interrupts-after-the-tree-manager-acted", Case{Seed: 113, Ops: []Op{
+		{K: "create", A: 0, B: 1}, {K: "ldelete", A: 0}, {K: "worker", B: 1, C: 8}, {K: "ldelete", A: 2}, {K: "worker", B: 2, C: 8},
+		{K: "rdelete", A: 1, B: 1}, {K: "deliver", A: 1}, {K: "worker", B: 4, C: 8},
+	}}},
 	{"index-update-queued-before-the-deletion", Case{Seed: 110, Async: true, Ops: []Op{
 		{K: "create", A: 0}, {K: "edit", A: 2}, {K: "ldelete", A: 2}, {K: "pump", A: 1}, {K: "pump", A: 1}, {K: "pump", A: 1},
 		{K: "pump", A: 1}, {K: "edit", A: 0}, {K: "rdelete", A: 1, B: 0}, {K: "deliver", A: 1}, {K: "pump", A: 1}, {K: "pump", A: 3},
